@@ -1,17 +1,12 @@
-(* Model_Checkers.v — transliterations of hand-written go-critic checkers over GoAst (no proofs here).
-
-   Every partial Go operation of the transliterated code is explicit: indexing a slice is [nth_error] or a
-   match on the list, slicing is guarded, a nil method receiver / explicit panic is a [Panic] outcome naming the
-   site.  Accesses that are total in Go but partial only through the rose-tree encoding (for instance the [Sel]
-   child of a selector) fall back to "no match"; [wf] guarantees the shape and the tie evaluates [wf] on every
-   converted file.  All recursion is structural (Coq's guard is the termination argument).
-
-   The definitions follow the repository after the fix commits a8b628a..98eb553 (guards marked `fix:`); the pre-fix
-   variants live in Model_Checkers_Prefix.v for documentation only.
-
-   A warning records the byte offset the Go code passes to ctx.Warn (the Pos() of the cause node) and how the
-   checker recognised its subject: by spelling (qualifiedName / Ident.Name) or by object (types.Info). *)
+(* Model_Checkers_Prefix.v — the transliterations as they were BEFORE the fix: commits a8b628a..98eb553 of the repository
+   (appendCombine, appendAssign, newDeref, ZeroValueOf, typeDefFirst, sortSlice, evalOrder, dupOption, flagName,
+   badRegexp, regexpPattern, regexpSimplify). Kept only so that the documentation lemmas C01_prefix_*_refuted
+   (Proofs_Witnesses.v) stay true statements about explicitly named pre-fix definitions; nothing else uses this
+   file and it is not tied to the repository any more. *)
 From GC Require Import Base GoAst.
+
+Module Prefix.
+
 
 Inductive recog :=
   | RBare (name : string)            (* callee spelled `name`, no object consulted; subject: universe `name` *)
@@ -47,14 +42,11 @@ Fixpoint seq_o (l : list outcome) : outcome :=
 (* the object the recognition refers to is the documented one *)
 Definition is_real (w : warning) : bool :=
   match w_recog w with
-  | RBare name => okind_eqb (w_callee w) (OBuiltin name) || okind_eqb (w_callee w) (OUniverseType name) ||
-                  (String.eqb name "nil" && okind_eqb (w_callee w) ONil)
+  | RBare name => okind_eqb (w_callee w) (OBuiltin name) || okind_eqb (w_callee w) (OUniverseType name)
   | RQual _ path => okind_eqb (w_callee w) (OPkgName path)
   | RObject path => okind_eqb (w_callee w) (OPkgName path)
   | RNoSubject => true
   end.
-
-Definition nonempty {A} (l : list A) : bool := match l with [] => false | _ => true end.
 
 (* ---------- the astwalk walkers (SkipChilds is never set by the modelled checkers) ---------- *)
 Definition decl_entered (d : node) : bool :=
@@ -118,7 +110,7 @@ Definition ac_match (stmt : node) (slice : option node) : res (option (node * no
           if negb (String.eqb (qualified_name fn) "append") then R None else
           if N.eqb (na rhs) 1 then R None else
           match args with
-          | [] => R None                      (* fix: len(call.Args) != 0 *)
+          | [] => P "appendCombine: call.Args[0]"
           | a0 :: _ =>
               if negb (node_eqb lhs a0) then R None else
               match slice with
@@ -163,7 +155,7 @@ Inductive zv := ZNil | ZExpr (printable : bool).
 Definition zero_value_of (t : tyclass) (deflit : bool) : zv :=
   match t with
   | TyInt | TyFloat | TyString | TyBool => ZExpr true          (* literal, or T(literal) *)
-  | TyBasicOther => ZNil                                       (* fix: zv == nil => return nil *)
+  | TyBasicOther => if deflit then ZNil else ZExpr false       (* zv stays nil: &ast.CallExpr{Fun: T, Args: {nil}} *)
   | TyNilable | TyTypeParam => ZExpr true                      (* T(nil) *)
   | TyArray | TyStruct => ZExpr true                           (* T{} *)
   | TyOther => ZNil
@@ -178,7 +170,8 @@ Definition newDeref_visit (e : node) : outcome :=
       | fn :: args =>
           if negb (is_tag TIdent fn && String.eqb (nstr fn) "new") then Ok [] else
           match args with
-          | [a0] =>                           (* fix: len(call.Args) == 1 *)
+          | [] => Panic "newDeref: call.Args[0]"
+          | a0 :: _ =>
               match f_ty (nfacts a0) with
               | TyTypeParam => Ok []
               | t =>
@@ -187,7 +180,6 @@ Definition newDeref_visit (e : node) : outcome :=
                   | ZExpr ok => Ok [mkw "newDeref" e (RBare "new") fn ok]
                   end
               end
-          | _ => Ok []
           end
       end
   | _ => Ok []
@@ -199,7 +191,6 @@ Definition run_newDeref (f : file) : outcome := run_expr newDeref_visit f.
 Fixpoint receiver_type (e : node) : res string :=
   match e with
   | Nd TStar _ _ _ _ _ (NC x NN) => receiver_type x
-  | Nd TParen _ _ _ _ _ (NC x NN) => receiver_type x          (* fix: case *ast.ParenExpr *)
   | Nd TIdent _ s _ _ _ _ => R s
   | Nd TIndex _ _ _ _ _ (NC x _) => receiver_type x
   | Nd TIndexList _ _ _ _ _ (NC x _) => receiver_type x
@@ -298,7 +289,7 @@ Definition sortSlice_visit (e : node) : outcome :=
               | [ret] =>
                   if negb (is_tag TReturn ret) then Ok [] else
                   match kids ret with
-                  | [] => Ok []                 (* fix: len(ret.Results) == 0 *)
+                  | [] => Panic "sortSlice: ret.Results[0]"
                   | r0 :: _ =>
                       let cmp := unparen r0 in
                       match cmp with
@@ -328,7 +319,7 @@ Definition run_sortSlice (f : file) : outcome := run_expr sortSlice_visit f.
 Definition has_ptr_recv (sel : node) : res bool :=
   match f_sig (nfacts sel) with
   | NoSig => R false
-  | Sig _ _ RNone _ => R false                (* fix: sig.Recv() == nil *)
+  | Sig _ _ RNone _ => P "evalOrder: sig.Recv() is nil in hasPtrRecv"
   | Sig _ _ RPtr _ => R true
   | Sig _ _ RVal _ => R false
   end.
@@ -380,7 +371,7 @@ Definition dupOption_visit (e : node) : outcome :=
       match f_sig (nfacts fn) with
       | Sig np true _ optlike =>
           let last := N.to_nat np - 1 in
-          if Nat.ltb (length args) last then Ok [] else      (* fix: last > len(call.Args) *)
+          if Nat.ltb (length args) last then Panic "dupOption: call.Args[last:]" else
           let vargs := skipn last args in
           match vargs with [] => Ok [] | _ =>
           if negb optlike then Ok [] else
@@ -420,7 +411,7 @@ Definition flagName_visit (e : node) : outcome :=
             end
           else if mem (nstr sel) flag_names2 then
             match nth_error args 1 with
-            | None => Ok []                   (* fix: len(call.Args) < 2 *)
+            | None => Panic "flagName: call.Args[1]"
             | Some a => Ok (check_flag_name e fn a)
             end
           else Ok []
@@ -476,7 +467,7 @@ Fixpoint aa_pairs (lhs rhs : list node) : list outcome :=
   match lhs, rhs with
   | x :: l, r0 :: r =>
       (if is_tag TCall r0 &&
-          match kids r0 with fn :: args => String.eqb (qualified_name fn) "append" && nonempty args | [] => false end
+          match kids r0 with fn :: _ => String.eqb (qualified_name fn) "append" | [] => false end
        then aa_check x r0 else Ok []) :: aa_pairs l r
   | _, _ => []
   end.
@@ -501,7 +492,7 @@ Definition regexp_entry (names : list string) (who : string) (e : node) : outcom
   | fn :: args =>
       if negb (mem (qualified_name fn) names) then Ok [] else
       match args with
-      | [] => Ok []                           (* fix: len(call.Args) == 0 *)
+      | [] => Panic (who ++ ": call.Args[0]")
       | _ :: _ => Ok []
       end
   end.
@@ -567,78 +558,114 @@ Definition rangeAppendAll_visit (stmt : node) : outcome :=
 
 Definition run_rangeAppendAll (f : file) : outcome := run_stmt rangeAppendAll_visit f.
 
-(* ================= truncateCmp (Expr walker; parameter skipArchDependent) ================= *)
-Definition trunc_names : list string := ["int8"; "int16"; "int32"; "uint8"; "uint16"; "uint32"].
-Definition basic_IsInteger : N := 2.
-Definition kind_Int : N := 2.  Definition kind_Uint : N := 7.  Definition kind_Uintptr : N := 12.
+(* ---------- the guards the current tree lacks, as predicates on nodes ---------- *)
+Definition nonempty {A} (l : list A) : bool := match l with [] => false | _ => true end.
 
-(* isTruncCast: astcast.ToIdent(astcast.ToCallExpr(x).Fun).Name is one of the names *)
-Definition is_trunc_cast (x : node) : bool :=
-  if is_tag TCall x then
-    match kids x with
-    | fn :: _ => is_tag TIdent fn && mem (nstr fn) trunc_names
-    | [] => false
+(* len(call.Args) > 0 for every call whose callee is spelled like one of [names] *)
+Definition g_spelled_call_has_args (names : list string) (n : node) : bool :=
+  if is_tag TCall n then
+    match kids n with
+    | fn :: args => if mem (qualified_name fn) names then nonempty args else true
+    | [] => true
     end
-  else false.
+  else true.
 
-Definition tc_check (skip : bool) (xcast y : node) : list warning :=
-  match kids xcast with
-  | [fn; x] =>                                                    (* len(xcast.Args) != 1 => return *)
-      match f_basic (nfacts x), f_basic (nfacts y) with
-      | Some (xi, xk, xs), Some (yi, _, ys) =>
-          if N.eqb (N.land xi basic_IsInteger) 0 then [] else
-          if negb (N.eqb xi yi) then [] else
-          if N.eqb xs 0 || N.eqb ys 0 then [] else                (* ctx.SizeOf not ok *)
-          if N.leb xs ys then [] else
-          if skip && (N.eqb xk kind_Int || N.eqb xk kind_Uint || N.eqb xk kind_Uintptr) then [] else
-          [mkw "truncateCmp" xcast (RBare (nstr fn)) fn true]
-      | _, _ => []
-      end
-  | _ => []
-  end.
+Definition g_append_args := g_spelled_call_has_args ["append"].
 
-Definition is_cmp_or_eq_op (op : N) : bool := is_cmp_op op || N.eqb op tok_EQL || N.eqb op tok_NEQ.
+Definition g_new_args (n : node) : bool :=
+  if is_tag TCall n then
+    match kids n with
+    | fn :: args => if is_tag TIdent fn && String.eqb (nstr fn) "new" then nonempty args else true
+    | [] => true
+    end
+  else true.
 
-Definition truncateCmp_visit (skip : bool) (e : node) : outcome :=
+(* receiver type written without parentheses *)
+Fixpoint no_paren_recv (e : node) : bool :=
   match e with
-  | Nd TBinary _ _ op _ _ (NC x (NC y NN)) =>
-      if negb (is_cmp_or_eq_op op) then Ok [] else
-      if is_tag TBasicLit x || is_tag TBasicLit y then Ok [] else
-      match is_trunc_cast x, is_trunc_cast y with
-      | true, true => Ok []
-      | true, false => Ok (tc_check skip x y)
-      | false, true => Ok (tc_check skip y x)
-      | false, false => Ok []
-      end
-  | _ => Ok []
+  | Nd TStar _ _ _ _ _ (NC x NN) => no_paren_recv x
+  | Nd TIdent _ _ _ _ _ _ => true
+  | Nd TIndex _ _ _ _ _ (NC x _) => no_paren_recv x
+  | Nd TIndexList _ _ _ _ _ (NC x _) => no_paren_recv x
+  | _ => false
   end.
 
-Definition run_truncateCmp (skip : bool) (f : file) : outcome := run_expr (truncateCmp_visit skip) f.
+Definition g_recv_plain (d : node) : bool :=
+  if is_tag TFuncDecl d && N.eqb (na d) 1 then
+    match kids d with
+    | recv :: _ =>
+        match kids recv with
+        | fld :: _ => match nth_error (kids fld) (N.to_nat (na fld)) with Some ty => no_paren_recv ty | None => true end
+        | [] => true
+        end
+    | [] => true
+    end
+  else true.
 
-(* ================= nilValReturn (Stmt walker) ================= *)
-Definition nilValReturn_visit (stmt : node) : outcome :=
-  if negb (is_tag TIf stmt) then Ok [] else
-  let ks := kids stmt in
-  match nth_error ks (N.to_nat (na stmt)), nth_error ks (N.to_nat (na stmt) + 1) with
-  | Some cond, Some body =>
+(* no function literal consists of a single bare `return` *)
+Definition g_lit_returns_value (n : node) : bool :=
+  match n with
+  | Nd TFuncLit _ _ _ _ _ (NC _ (NC body NN)) =>
       match kids body with
-      | [ret] =>
-          if negb (is_tag TReturn ret) then Ok [] else
-          match cond with
-          | Nd TBinary _ _ op _ _ (NC x (NC y NN)) =>
-              if N.eqb op tok_EQL && f_pure (nfacts x) && String.eqb (qualified_name y) "nil" then
-                if existsb (node_eqb x) (kids ret) then Ok [mkw "nilValReturn" ret (RBare "nil") (callee_ident y) true] else Ok []
-              else Ok []
-          | _ => Ok []
-          end
-      | _ => Ok []
+      | [ret] => if is_tag TReturn ret then nonempty (kids ret) else true
+      | _ => true
       end
-  | _, _ => Ok []
+  | _ => true
   end.
 
-Definition run_nilValReturn (f : file) : outcome := run_stmt nilValReturn_visit f.
+Definition recv_known (sel : node) : bool :=
+  match f_sig (nfacts sel) with Sig _ _ RNone _ => false | _ => true end.
 
-(* ---------- hypotheses of the C20 partial theorems, as predicates on nodes ---------- *)
+(* in `return a, a.f()` the selected f is a method (has a receiver), not a function-valued field *)
+Definition g_return_calls_methods (n : node) : bool :=
+  if is_tag TReturn n then
+    forallb (fun r =>
+               match kids r with
+               | Nd TSelector _ _ _ _ _ (NC x (NC sel NN)) :: _ =>
+                   if existsb (fun id => is_tag TIdent id && node_eqb x id) (kids n) then recv_known sel else true
+               | _ => true
+               end) (kids n)
+  else true.
+
+(* a variadic callee gets at least its fixed parameters: last <= len(call.Args) *)
+Definition g_variadic_fixed_args (n : node) : bool :=
+  if is_tag TCall n then
+    match kids n with
+    | fn :: args =>
+        match f_sig (nfacts fn) with
+        | Sig np true _ _ => Nat.leb (N.to_nat np - 1) (length args)
+        | _ => true
+        end
+    | [] => true
+    end
+  else true.
+
+(* flag.XxxVar(...) is written with at least two arguments *)
+Definition g_flagvar_two_args (n : node) : bool :=
+  if is_tag TCall n then
+    match kids n with
+    | Nd TSelector _ _ _ _ _ (NC x (NC sel NN)) :: args =>
+        match obj_of x with
+        | OPkgName path =>
+            if String.eqb path "flag" && mem (nstr sel) flag_names2 then Nat.leb 2 (length args) else true
+        | _ => true
+        end
+    | _ => true
+    end
+  else true.
+
+(* new(T) is never dereferenced for a basic T without literal spelling (complex, unsafe.Pointer) *)
+Definition g_new_has_literal (n : node) : bool :=
+  if is_tag TCall n then
+    match kids n with
+    | fn :: a0 :: _ =>
+        if is_tag TIdent fn && String.eqb (nstr fn) "new" then
+          match f_ty (nfacts a0) with TyBasicOther => false | _ => true end
+        else true
+    | _ => true
+    end
+  else true.
+
 (* no identifier spelled [name] denotes anything but the universe object / no qualifier [q] anything but package [path] *)
 Definition g_no_namesake_bare (name : string) (n : node) : bool :=
   if is_tag TIdent n && String.eqb (nstr n) name
@@ -663,9 +690,6 @@ Definition run_by_name (name : string) (f : file) : option outcome :=
   else if String.eqb name "badRegexp" then Some (run_badRegexp_entry f)
   else if String.eqb name "regexpPattern" then Some (run_regexpPattern_entry f)
   else if String.eqb name "regexpSimplify" then Some (run_regexpSimplify_entry f)
-  else if String.eqb name "truncateCmp" then Some (run_truncateCmp true f)
-  else if String.eqb name "truncateCmp/noskip" then Some (run_truncateCmp false f)
-  else if String.eqb name "nilValReturn" then Some (run_nilValReturn f)
   else None.
 
 (* entry-guard-only models: the tie compares {ok, panic}, not the warning list *)
@@ -713,3 +737,17 @@ Definition namesake_detail (f : file) (observed : list (string * list N)) : list
                       | Some o => if list_eqb N.eqb (namesake_offsets o) (snd p) then [] else [(fst p, Some (namesake_offsets o))]
                       | None => [(fst p, None)]
                       end) observed)%list.
+
+End Prefix.
+
+Definition run_appendCombine_prefix := Prefix.run_appendCombine.
+Definition run_appendAssign_prefix := Prefix.run_appendAssign.
+Definition run_newDeref_prefix := Prefix.run_newDeref.
+Definition run_typeDefFirst_prefix := Prefix.run_typeDefFirst.
+Definition run_sortSlice_prefix := Prefix.run_sortSlice.
+Definition run_evalOrder_prefix := Prefix.run_evalOrder.
+Definition run_dupOption_prefix := Prefix.run_dupOption.
+Definition run_flagName_prefix := Prefix.run_flagName.
+Definition run_badRegexp_entry_prefix := Prefix.run_badRegexp_entry.
+Definition run_regexpPattern_entry_prefix := Prefix.run_regexpPattern_entry.
+Definition run_regexpSimplify_entry_prefix := Prefix.run_regexpSimplify_entry.
